@@ -445,7 +445,7 @@ def plan(tier, seed):
             for s in rng.sample(subs, min(2, len(subs))):
                 items.append({"instance": idx, "leaving": s})
         return items, False
-    for idx in range(24):
+    for idx in range(72):
         inst = gen_instance(common.rng_for(seed, "C27", idx))
         for s in subsets(inst):
             items.append({"instance": idx, "leaving": s})
@@ -459,7 +459,7 @@ def main(chk, tier, seed):
                        "the state is observed 1.2 s after the repair report (resume messages drained); harness watchdog firing is inconclusive"]
     items, exhaustive = plan(tier, seed)
     nproc = 16
-    nlevel = 160 if tier == "quick" else 4000
+    nlevel = 160 if tier == "quick" else 12000
     jobs = [{"seed": seed, "items": items[i::nproc], "lines": False, "level_items": list(range(nlevel))[i::nproc]} for i in range(nproc)]
     jobs = [j for j in jobs if j["items"] or j["level_items"]]
     results = common.run_workers("c27", jobs, nproc=nproc, timeout=600 if tier == "quick" else 3000)
